@@ -504,6 +504,29 @@ func genScenario(rng *RNG, errProne bool, maxBlocks int) azScenario {
 			sc.Ops = append([]azOp{{Kind: "policy", Policy: SPolicy{Deny: rng.Chance(30), Queries: []SRule{goal}}}}, sc.Ops...)
 		}
 	}
+	if len(sc.Token) >= 3 && rng.Chance(40) {
+		// the SAME check in several scopes: a check that one later block satisfies with a fact of its own is also
+		// carried, word for word, by another later block (before or after it) and sometimes by the authority block or
+		// the authorizer; what a check gave in one scope says nothing about another scope
+		src := 1 + rng.Intn(len(sc.Token)-1)
+		if len(sc.Token[src].Facts) == 0 {
+			sc.Token[src].Facts = append(sc.Token[src].Facts, g.pg.fact())
+		}
+		f := sc.Token[src].Facts[rng.Intn(len(sc.Token[src].Facts))]
+		twin := SCheck{SRule{Head: SPred{Name: "query"}, Body: []SPred{f}}}
+		sc.Token[src].Checks = append(sc.Token[src].Checks, twin)
+		for bi := 1; bi < len(sc.Token); bi++ {
+			if bi != src && rng.Chance(70) {
+				sc.Token[bi].Checks = append(sc.Token[bi].Checks, twin)
+			}
+		}
+		if rng.Chance(15) {
+			sc.Token[0].Checks = append(sc.Token[0].Checks, twin)
+		}
+		if rng.Chance(15) {
+			sc.Ops = append(sc.Ops, azOp{Kind: "check", Check: twin})
+		}
+	}
 	sc.Ops = append(sc.Ops, azOp{Kind: "authorize"})
 	for i := rng.Intn(3); i > 0; i-- {
 		sc.Ops = append(sc.Ops, azOp{Kind: "query", Rule: g.pg.query(errProne)})
